@@ -19,7 +19,8 @@ PID = 'C11'
 LEVEL = 'fault_enumeration'
 RULE = ('(a) Hypothesis lifecycle histories over ONE directory: open(reuse, clear) [all four combinations, optional '
         'foreign file in the directory], access by index / negative / numpy index / key / slice view / iteration / '
-        'prefetch, copy(), release(handle) = del + gc.collect(), reopen, an open refused because the dataset is not '
+        'prefetch, copy(), release(handle) = del + gc.collect(), reopen, the wall clock jumping ahead by days or months, '
+        'a store whose library-level size limit is reached after a few examples, an open refused because the dataset is not '
         'indexable; a counting upstream makes every '
         'recomputation visible. Model: stored values per position, live handles of the one open wrapper group, '
         'directory state. Oracle: every value is the pipeline value and equals what was stored first; stored '
@@ -68,12 +69,23 @@ def lifecycle(case):
     counter = itertools.count(1)
 
     none_pos = case.get('none_pos')
+    pad = case.get('pad', 0)
+    # the environment: how large the disk cache library believes its store may grow before it starts culling (the
+    # library default is 1 GiB - a scaled-down world shows the same behaviour after kilobytes), and the wall clock
+    import diskcache.core as _dc
+    saved_limit = _dc.DEFAULT_SETTINGS['size_limit']
+    if case.get('size_limit'):
+        _dc.DEFAULT_SETTINGS['size_limit'] = case['size_limit']
+    real_time = time.time
+    clock = {'offset': 0.0}
 
     def counting(x):
         c = next(counter)
         calls.setdefault(x, []).append(c)
         if x == none_pos:
             return None  # None is a legitimate example; recomputation shows in the call counter
+        if pad:
+            return (x, c, 'p' * pad)
         return (x, c)
 
     keys = ['k%d' % i for i in range(n)]
@@ -99,8 +111,10 @@ def lifecycle(case):
                     raise Violation(f'not-a-pipeline-value|{path}', f'{desc}\nposition {p} via {path}: {v!r}')
                 stored.setdefault(p, None)
                 return
+            if pad and isinstance(v, tuple) and len(v) == 3 and v[2] == 'p' * pad:
+                v = v[:2]
             if not (isinstance(v, tuple) and len(v) == 2 and v[0] == p and v[1] in calls.get(p, [])):
-                raise Violation(f'not-a-pipeline-value|{path}', f'{desc}\nposition {p} via {path}: {v!r}')
+                raise Violation(f'not-a-pipeline-value|{path}', f'{desc}\nposition {p} via {path}: {v!r:.300}')
             if p in stored:
                 if v != stored[p]:
                     raise Violation(f'stored-value-not-served|{path}',
@@ -162,6 +176,11 @@ def lifecycle(case):
                 gc.collect()
                 if clear:
                     stored.clear()
+            elif kind == 'clock':
+                # time passes (days): stored examples do not age
+                clock['offset'] += step[1] * 86400.0
+                time.time = lambda: real_time() + clock['offset']
+                events.add('clock')
             elif kind == 'copy':
                 if handles:
                     handles.append(handles[step[1] % len(handles)].copy())
@@ -245,6 +264,8 @@ def lifecycle(case):
             raise Violation('directory-removed-despite-clear-false', f'{desc}\nat the end')
         return events
     finally:
+        time.time = real_time
+        _dc.DEFAULT_SETTINGS['size_limit'] = saved_limit
         handles.clear()
         gc.collect()
         shutil.rmtree(root, ignore_errors=True)
@@ -266,6 +287,8 @@ def st_lifecycle(draw):
                 steps.append(['release', draw(st.integers(0, 3))])
             elif r == 2:
                 steps.append(['open', draw(st.booleans()), draw(st.booleans())])  # ignored while a group is open
+            elif r == 3 and draw(st.booleans()):
+                steps.append(['clock', draw(st.sampled_from([1, 40, 100, 400]))])
             else:
                 steps.append(['acc', draw(st.sampled_from(PATHS)), draw(st.integers(0, 7)), draw(st.integers(0, 3))])
         for _ in range(draw(st.integers(0, 3))):
@@ -280,6 +303,10 @@ def st_lifecycle(draw):
         case['odd_name'] = True
     if draw(st.integers(0, 3)) == 0:
         case['none_pos'] = draw(st.integers(0, n - 1))
+    if draw(st.integers(0, 3)) == 0:
+        # a world in which the store is "full" after a few examples (below and above the 32 KiB inline limit)
+        case['pad'] = draw(st.sampled_from([9000, 40000]))
+        case['size_limit'] = 16384
     sp = draw(st.sampled_from(['str', 'str', 'path', 'envvar']))
     if sp != 'str':
         case['spelled'] = sp
